@@ -468,7 +468,40 @@ func (s *Store) writeIndexFile() error {
 	if err != nil {
 		return fmt.Errorf("failed to marshal index file: %w", err)
 	}
-	return os.WriteFile(s.indexPath, indexJSON, 0666)
+	return writeFileAtomic(s.indexPath, indexJSON, 0666)
+}
+
+// writeFileAtomic writes data to a temporary file next to path and renames it
+// into place, so that a crash never leaves a truncated or partially written
+// file at path.
+func writeFileAtomic(path string, data []byte, perm os.FileMode) (err error) {
+	if fi, statErr := os.Stat(path); statErr == nil {
+		perm = fi.Mode().Perm()
+	} else {
+		// mimic os.WriteFile for a new file: perm before umask
+		perm &^= 0022
+	}
+	tmp, err := os.CreateTemp(filepath.Dir(path), filepath.Base(path)+".tmp*")
+	if err != nil {
+		return err
+	}
+	tmpPath := tmp.Name()
+	defer func() {
+		if err != nil {
+			os.Remove(tmpPath)
+		}
+	}()
+	if _, err = tmp.Write(data); err != nil {
+		tmp.Close()
+		return err
+	}
+	if err = tmp.Close(); err != nil {
+		return err
+	}
+	if err = os.Chmod(tmpPath, perm); err != nil {
+		return err
+	}
+	return os.Rename(tmpPath, path)
 }
 
 // GC removes garbage from Store. Unsaved index will be lost. To prevent unexpected
